@@ -1,1 +1,278 @@
-(* placeholder: to be written *)
+(** Executable model of the weekly-rewards-splitting module shared by fees-collector, farm,
+    farm-with-locked-rewards and farm-staking (boosted rewards).
+
+    Mirrors, function by function and guard by guard:
+      energy-integration/common-modules/weekly-rewards-splitting/src/lib.rs
+          (ClaimProgress::advance_week / advance_multiple_weeks, claim_multi, claim_single)
+      .../src/base_impl.rs            (collect_and_get_rewards_for_week, default get_user_rewards_for_week)
+      .../src/global_info.rs          (update_global_amounts_for_current_week, perform_weekly_update,
+                                       totals after a user energy update)
+      .../src/locked_token_buckets.rs (shift_buckets_and_update_tokens_energy, reallocate_bucket_after_energy_update,
+                                       get_bucket_id_for_energy, get_surplus_for_energy)
+      .../src/update_claim_progress_energy.rs (update_energy_for_user, update_energy_and_progress,
+                                       update_user_energy_for_current_week, clear_user_energy)
+      energy-integration/common-modules/week-timekeeping/src/lib.rs  (get_week_for_epoch)
+      locked-asset/energy-factory/src/energy.rs   (Energy: deplete, get_energy_amount — the part the module uses)
+
+    Generic in the host contract: [H] is the host's own storage, [collect] its
+    [collect_rewards_for_week], [hook] its [get_user_rewards_for_week] (the fees collector keeps the
+    default one, the farms override it with the boosted-yields formula).
+    No proofs in this file. *)
+From MX Require Import Base.Prelude Gen.Params.
+
+(** ------------------------------------------------------------------ Energy (energy.rs) *)
+(** amount is a BigInt (goes negative once locks have expired), tokens a BigUint, epoch a u64 *)
+Record en := mkEn { en_amt : Z; en_epoch : Z; en_tok : Z }.
+
+Definition en_default : en := mkEn 0 0 0.                       (* Energy::default *)
+Definition en_zero (epoch : Z) : en := mkEn 0 epoch 0.          (* Energy::new_zero_energy *)
+
+(** get_energy_amount: the positive part *)
+Definition en_amount (e : en) : Z := if 0 <? en_amt e then en_amt e else 0.
+
+(** deplete: amount -= tokens * (epoch - last_update_epoch) when the epoch is later; always stamps the epoch *)
+Definition en_deplete (e : en) (epoch : Z) : en :=
+  if en_epoch e =? epoch then e
+  else mkEn (if (0 <? en_tok e) && (en_epoch e <? epoch)
+             then en_amt e - en_tok e * (epoch - en_epoch e) else en_amt e)
+            epoch (en_tok e).
+
+(** ------------------------------------------------------------------ week-timekeeping *)
+Definition week_for_epoch (first_epoch epoch : Z) : result Z :=
+  check (first_epoch <=? epoch) else EGuard;
+  Ok ((epoch - first_epoch) / EPOCHS_IN_WEEK + 1).
+
+(** ------------------------------------------------------------------ ClaimProgress (lib.rs) *)
+Record progress := mkProg { pr_en : en; pr_week : Z }.
+
+Definition advance_week (p : progress) : progress :=
+  mkProg (en_deplete (pr_en p) (en_epoch (pr_en p) + EPOCHS_IN_WEEK)) (pr_week p + 1).
+
+Definition advance_multiple_weeks (p : progress) (n : Z) : progress :=
+  mkProg (en_deplete (pr_en p) (en_epoch (pr_en p) + EPOCHS_IN_WEEK * n)) (pr_week p + n).
+
+(** ------------------------------------------------------------------ storage *)
+(** maps with list values (a week's reward payments, a week's per-token amounts); absent = [] *)
+Fixpoint rget (l : list (Z * list (Z * Z))) (k : Z) : list (Z * Z) :=
+  match l with
+  | [] => []
+  | (k', v) :: t => if k' =? k then v else rget t k
+  end.
+
+Fixpoint rset (l : list (Z * list (Z * Z))) (k : Z) (v : list (Z * Z)) : list (Z * list (Z * Z)) :=
+  match l with
+  | [] => [(k, v)]
+  | (k', v') :: t => if k' =? k then (k, v) :: t else (k', v') :: rset t k v
+  end.
+
+(** currentClaimProgress(user): absent = empty mapper *)
+Fixpoint pfind (l : list (Z * progress)) (u : Z) : option progress :=
+  match l with
+  | [] => None
+  | (u', p) :: t => if u' =? u then Some p else pfind t u
+  end.
+
+Fixpoint pset (l : list (Z * progress)) (u : Z) (p : progress) : list (Z * progress) :=
+  match l with
+  | [] => [(u, p)]
+  | (u', p') :: t => if u' =? u then (u, p) :: t else (u', p') :: pset t u p
+  end.
+
+Definition pdel (l : list (Z * progress)) (u : Z) : list (Z * progress) :=
+  filter (fun kv => negb (fst kv =? u)) l.
+
+Record wstate := mkW {
+  w_prog : list (Z * progress);          (* currentClaimProgress *)
+  w_energy : list (Z * Z);               (* totalEnergyForWeek *)
+  w_tokens : list (Z * Z);               (* totalLockedTokensForWeek *)
+  w_last : Z;                            (* lastGlobalUpdateWeek *)
+  w_first : Z;                           (* firstBucketId *)
+  w_btok : list (Z * Z);                 (* lockedTokensInBucket(id).token_amount *)
+  w_bsur : list (Z * Z);                 (* lockedTokensInBucket(id).surplus_energy_amount *)
+  w_rewards : list (Z * list (Z * Z))    (* totalRewardsForWeek: (token, amount) list; [] = empty mapper *)
+}.
+
+Definition init_w : wstate := mkW [] [] [] 0 0 [] [] [].
+
+Definition set_prog (s : wstate) (l : list (Z * progress)) : wstate :=
+  mkW l (w_energy s) (w_tokens s) (w_last s) (w_first s) (w_btok s) (w_bsur s) (w_rewards s).
+Definition set_energy (s : wstate) (l : list (Z * Z)) : wstate :=
+  mkW (w_prog s) l (w_tokens s) (w_last s) (w_first s) (w_btok s) (w_bsur s) (w_rewards s).
+Definition set_tokens (s : wstate) (l : list (Z * Z)) : wstate :=
+  mkW (w_prog s) (w_energy s) l (w_last s) (w_first s) (w_btok s) (w_bsur s) (w_rewards s).
+Definition set_last (s : wstate) (x : Z) : wstate :=
+  mkW (w_prog s) (w_energy s) (w_tokens s) x (w_first s) (w_btok s) (w_bsur s) (w_rewards s).
+Definition set_buckets (s : wstate) (f : Z) (bt bs : list (Z * Z)) : wstate :=
+  mkW (w_prog s) (w_energy s) (w_tokens s) (w_last s) f bt bs (w_rewards s).
+Definition set_rewards (s : wstate) (l : list (Z * list (Z * Z))) : wstate :=
+  mkW (w_prog s) (w_energy s) (w_tokens s) (w_last s) (w_first s) (w_btok s) (w_bsur s) l.
+
+(** ------------------------------------------------------------------ locked_token_buckets.rs *)
+(** math::safe_sub *)
+Definition safe_sub (a b : Z) : Z := if b <? a then a - b else 0.
+
+Definition bucket_id_for (first : Z) (e : en) : option Z :=
+  if en_tok e =? 0 then None
+  else if en_amount e =? 0 then None
+  else Some (en_amount e / en_tok e / EPOCHS_IN_WEEK + first).
+
+Definition surplus_for (e : en) : Z :=
+  if en_tok e =? 0 then 0 else en_amount e mod (en_tok e * EPOCHS_IN_WEEK).
+
+(** one iteration per week passed: take the first bucket, drop its tokens from the total, deplete the
+    total energy by a week of the remaining tokens plus the expiring bucket's surplus *)
+Fixpoint shift_buckets (n : nat) (first : Z) (bt bs : list (Z * Z)) (tokens energy : Z)
+  : result (Z * list (Z * Z) * list (Z * Z) * Z * Z) :=
+  match n with
+  | O => Ok (first, bt, bs, tokens, energy)
+  | S n' =>
+      do tokens' <- sub_chk tokens (aget bt first);
+      let deplete := tokens' * EPOCHS_IN_WEEK + aget bs first in
+      shift_buckets n' (first + 1) (aset bt first 0) (aset bs first 0) tokens' (safe_sub energy deplete)
+  end.
+
+(** reallocate_bucket_after_energy_update: returns the state and (had_prev, has_current) *)
+Definition reallocate_bucket (s : wstate) (orig_prev depl_prev cur : en) : result (wstate * bool * bool) :=
+  let ob := bucket_id_for (w_first s) depl_prev in
+  do s1 <- match ob with
+           | Some b =>
+               do t <- sub_chk (aget (w_btok s) b) (en_tok orig_prev);
+               do x <- sub_chk (aget (w_bsur s) b) (surplus_for orig_prev);
+               Ok (set_buckets s (w_first s) (aset (w_btok s) b t) (aset (w_bsur s) b x))
+           | None => Ok s
+           end;
+  let nb := bucket_id_for (w_first s1) cur in
+  let s2 := match nb with
+            | Some b =>
+                set_buckets s1 (w_first s1) (aset (w_btok s1) b (aget (w_btok s1) b + en_tok cur))
+                            (aset (w_bsur s1) b (aget (w_bsur s1) b + surplus_for cur))
+            | None => s1
+            end in
+  Ok (s2, match ob with Some _ => true | None => false end, match nb with Some _ => true | None => false end).
+
+(** ------------------------------------------------------------------ global_info.rs *)
+Definition perform_weekly_update (s : wstate) (cw : Z) : result wstate :=
+  if w_last s =? cw then Ok s else
+  let s0 := set_last s cw in
+  if w_last s =? 0 then Ok s0 else
+  let lw := w_last s in
+  let te := aget (w_energy s) lw in
+  let tt := aget (w_tokens s) lw in
+  check (lw <=? cw) else EArith;                                    (* usize subtraction *)
+  do (f, bt, bs, tt', te') <- shift_buckets (Z.to_nat (cw - lw)) (w_first s) (w_btok s) (w_bsur s) tt te;
+  let s1 := set_buckets s0 f bt bs in
+  let s2 := set_energy s1 (aset (w_energy s1) cw te') in
+  let s3 := set_tokens s2 (aset (aset (w_tokens s2) lw 0) cw tt') in          (* take() ... set() *)
+  if USER_MAX_CLAIM_WEEKS + 1 <? cw then
+    let iw := cw - USER_MAX_CLAIM_WEEKS - 1 in
+    Ok (set_energy (set_rewards s3 (rset (w_rewards s3) iw [])) (aset (w_energy s3) iw 0))
+  else Ok s3.
+
+Definition update_global_amounts (s : wstate) (cw last_active : Z) (prev cur : en) : result wstate :=
+  do s1 <- perform_weekly_update s cw;
+  check (last_active <=? cw) else EArith;                           (* usize subtraction *)
+  let prev_upd := if cw =? last_active then prev
+                  else en_deplete prev (en_epoch prev + (cw - last_active) * EPOCHS_IN_WEEK) in
+  do (s2, had_prev, has_cur) <- reallocate_bucket s1 prev prev_upd cur;
+  let tl := aget (w_tokens s2) cw in
+  do tl' <- (if had_prev && has_cur then sub_chk (tl + en_tok cur) (en_tok prev_upd)
+             else if had_prev then sub_chk tl (en_tok prev_upd)
+             else if has_cur then Ok (tl + en_tok cur)
+             else Ok tl);
+  let s3 := set_tokens s2 (aset (w_tokens s2) cw tl') in
+  do te <- sub_chk (aget (w_energy s3) cw) (en_amount prev_upd);
+  Ok (set_energy s3 (aset (w_energy s3) cw (te + en_amount cur))).
+
+(** ------------------------------------------------------------------ update_claim_progress_energy.rs *)
+Definition update_user_energy (s : wstate) (cw : Z) (cur : en) (op : option progress) : result wstate :=
+  let '(last_active, prev) := match op with
+                              | Some p => (pr_week p, pr_en p)
+                              | None => (0, en_default)
+                              end in
+  update_global_amounts s cw last_active prev cur.
+
+Definition store_progress (s : wstate) (user cw : Z) (cur : en) : wstate :=
+  if 0 <? en_amount cur then set_prog s (pset (w_prog s) user (mkProg cur cw))
+  else set_prog s (pdel (w_prog s) user).
+
+Definition update_energy_and_progress (s : wstate) (user cw : Z) (cur : en) : result wstate :=
+  do s1 <- update_user_energy s cw cur (pfind (w_prog s) user);
+  Ok (store_progress s1 user cw cur).
+
+(** endpoint updateEnergyForUser *)
+Definition update_energy_for_user (s : wstate) (user cw : Z) (cur : en) : result wstate :=
+  check (match pfind (w_prog s) user with Some p => pr_week p =? cw | None => true end) else EGuard;
+  update_energy_and_progress s user cw cur.
+
+(** clear_user_energy (used by the farms when a position falls below the minimum) *)
+Definition clear_user_energy (s : wstate) (user cw epoch remaining min_amount : Z) : result wstate :=
+  if min_amount <=? remaining then Ok s else
+  do s1 <- update_user_energy s cw (en_zero epoch) (pfind (w_prog s) user);
+  Ok (set_prog s1 (pdel (w_prog s1) user)).
+
+(** ------------------------------------------------------------------ base_impl.rs + lib.rs *)
+Section Host.
+  Variable H : Type.
+  (** collect_rewards_for_week: what the host hands over as the week's total, once *)
+  Variable collect : H -> Z -> H * list (Z * Z).
+
+  Definition collect_and_get (h : H) (s : wstate) (week : Z) : H * wstate * list (Z * Z) :=
+    match rget (w_rewards s) week with
+    | [] => let '(h', r) := collect h week in (h', set_rewards s (rset (w_rewards s) week r), r)
+    | r => (h, s, r)
+    end.
+
+  (** amount * energy / total_energy per reward token, zero amounts dropped *)
+  Fixpoint shares (tot : list (Z * Z)) (e E : Z) : list (Z * Z) :=
+    match tot with
+    | [] => []
+    | (t, a) :: tl => let r := a * e / E in
+                      if 0 <? r then (t, r) :: shares tl e E else shares tl e E
+    end.
+
+  (** default get_user_rewards_for_week (division only behind the total_energy == 0 return) *)
+  Definition default_user_rewards (h : H) (s : wstate) (week e E : Z) : result (H * wstate * list (Z * Z)) :=
+    if (e =? 0) || (E =? 0) then Ok (h, s, []) else
+    let '(h', s', tot) := collect_and_get h s week in
+    Ok (h', s', shares tot e E).
+End Host.
+
+Section Claim.
+  Variable H : Type.
+  (** get_user_rewards_for_week of the host: state, week, user energy amount, total energy of the week *)
+  Variable hook : H -> wstate -> Z -> Z -> Z -> result (H * wstate * list (Z * Z)).
+
+  Definition claim_single (h : H) (s : wstate) (p : progress)
+    : result (H * wstate * progress * list (Z * Z)) :=
+    let te := aget (w_energy s) (pr_week p) in
+    do (h', s', r) <- hook h s (pr_week p) (en_amount (pr_en p)) te;
+    Ok (h', s', advance_week p, r).
+
+  (** the claim loop; returns the per-week breakdown (week, payments) — the endpoint returns the
+      concatenation of the non-empty ones *)
+  Fixpoint claim_weeks (n : nat) (h : H) (s : wstate) (p : progress)
+    : result (H * wstate * progress * list (Z * list (Z * Z))) :=
+    match n with
+    | O => Ok (h, s, p, [])
+    | S n' =>
+        do (h1, s1, p1, r) <- claim_single h s p;
+        do (h2, s2, p2, rs) <- claim_weeks n' h1 s1 p1;
+        Ok (h2, s2, p2, (pr_week p, r) :: rs)
+    end.
+
+  (** [cur] = get_energy_entry(user): the factory's entry depleted to the current epoch *)
+  Definition claim_multi (h : H) (s : wstate) (user cw : Z) (cur : en)
+    : result (H * wstate * list (Z * list (Z * Z))) :=
+    let op := pfind (w_prog s) user in
+    let cp := match op with Some p => p | None => mkProg cur cw end in
+    do s1 <- update_user_energy s cw cur op;
+    check (pr_week cp <=? cw) else EArith;                          (* usize subtraction *)
+    let total := cw - pr_week cp in
+    let cp1 := if USER_MAX_CLAIM_WEEKS <? total
+               then advance_multiple_weeks cp (total - USER_MAX_CLAIM_WEEKS) else cp in
+    let n := Z.min total USER_MAX_CLAIM_WEEKS in
+    do (h2, s2, _, detail) <- claim_weeks (Z.to_nat n) h s1 cp1;
+    Ok (h2, store_progress s2 user cw cur, detail).
+End Claim.
+
+Definition flat_rewards (detail : list (Z * list (Z * Z))) : list (Z * Z) := concat (map snd detail).
